@@ -18,7 +18,10 @@ pub struct StaticResourceController;
 
 impl Controller for StaticResourceController {
     fn is_matching(request: &Request, _connection: &ConnectionInfo) -> bool {
-        if request.method != METHOD.get {
+        let is_get = request.method == METHOD.get;
+        let is_head = request.method == METHOD.head;
+        let is_options = request.method == METHOD.options;
+        if !(is_get || is_head || is_options) {
             return false;
         }
 
